@@ -83,6 +83,30 @@ def hostile_history(rng, proto):
     return [[0, 9, 0, 11] + [255] * 16 + body]
 
 
+def position_history(rng, proto):
+    """one element of every abstract type, and paddingOctets (210), as the only field of a record, as its first, its last, a
+    middle one and twice in a row - two records each: one datagram per element"""
+    model = gen_flow.snapshot()
+    pick = {"padding": 210}
+    for eid, t in sorted(model.items()):
+        pick.setdefault(t, eid)
+    out = []
+    for t, eid in sorted(pick.items()):
+        ln = gen_flow.SIZES.get(model[eid]) or 3
+        E, A, B = (eid, ln), (7, 2), (4, 1)
+        body = []
+        tid = 400
+        for layout in ([E], [E, A], [A, E], [A, E, B], [E, E], [A, E, E]):
+            tbody = u16(tid) + u16(len(layout)) + [o for (e, l) in layout for o in u16(e) + u16(l)]
+            recs = [rng.randrange(1, 255) for _ in range(2 * sum(l for _, l in layout))]
+            if model[eid] == "boolean":
+                recs = [1 + (o & 1) for o in recs]
+            body += u16(2 if proto == "ipfix" else 0) + u16(4 + len(tbody)) + tbody + u16(tid) + u16(4 + len(recs)) + recs
+            tid += 1
+        out.append(([0, 10] + u16(16 + len(body)) + [0] * 12 + body) if proto == "ipfix" else ([0, 9, 0, 18] + [0] * 16 + body))
+    return out
+
+
 def judge_flow(ctx, proto, m, x, rows):
     """one decoded + marshalled IPFIX / v9 message"""
     name = codec.P[proto]["name"]
@@ -136,6 +160,7 @@ def check(ctx):
             jobs.append({"msgs": [{"exp": exps[i % 3], "buf": b} for b in string_history(proto, s)], "want_json": True})
         for k in range(3):
             jobs.append({"msgs": [{"exp": exps[k], "buf": b} for b in hostile_history(ctx.rng, proto)], "want_json": True})
+        jobs.append({"msgs": [{"exp": exps[1], "buf": b} for b in position_history(ctx.rng, proto)], "want_json": True})
         g = gen_flow.Gen(ctx.rng, proto)
         for h in range(300 if thorough else 50):
             jobs.append({"msgs": [{"exp": exps[h % 3], "buf": b} for b in g.history(6)], "want_json": True})
